@@ -213,3 +213,101 @@ fn nopanic_with_settings_ok() {
     core::mem::forget(b2);
     kani::cover!(true, "END: harness ran to completion");
 }
+
+// ------------------------------------------------------------------------------------------------
+// blocks packed back to back under a LOW minimum alignment, the minimum alignment is RAISED (borrow_mut_with_settings
+// or aligned::<8>), then ONE operation on the OLDER block A (not the newest allocation): the newer block B - which
+// may sit inside what is now A's min-align padding - keeps its bytes and is never overlapped (C18 "data intact",
+// C01 disjoint, C02 contents, C13 "deallocating or shrinking any other block reclaims nothing").
+// ------------------------------------------------------------------------------------------------
+fn older_op<AL: Allocator, const UP: bool>(s: &AL, w1: Win, a: core::ptr::NonNull<u8>, la: core::alloc::Layout, ia: usize, va: u8, b: core::ptr::NonNull<u8>, lb: core::alloc::Layout, ib: usize, vb: u8) {
+    let op: u8 = kani::any();
+    kani::assume(op < 4);
+    let ln = any_layout(8, 3);
+    let res = match op {
+        0 => {
+            unsafe { s.deallocate(a, la) };
+            s.allocate(ln)
+        }
+        1 => {
+            kani::assume(ln.size() >= la.size());
+            unsafe { s.grow(a, la, ln) }
+        }
+        2 => {
+            kani::assume(ln.size() >= la.size());
+            unsafe { s.grow_zeroed(a, la, ln) }
+        }
+        _ => {
+            kani::assume(ln.size() <= la.size());
+            unsafe { s.shrink(a, la, ln) }
+        }
+    };
+    check!(unsafe { w1.read(addr(b) + ib) } == vb, "C18/C02: bytes of a live newer block changed by an operation on an older block after the minimum alignment was raised");
+    if let Ok(n) = res {
+        let n = n.cast::<u8>();
+        kani::cover!(op == 0, "deallocate + allocate on the older block returned a block");
+        kani::cover!(op == 1, "grow of the older block returned a block");
+        kani::cover!(op == 3, "shrink of the older block returned a block");
+        check!(addr(n) % ln.align() == 0, "C01: block misaligned");
+        check!(disjoint(addr(n), ln.size(), addr(b), lb.size()), "C18/C01: a block returned for an operation on an older block overlaps the live newer block");
+        if op != 0 && ia < ln.size() && w1.holds(addr(n) + ia) {
+            check!(unsafe { w1.read(addr(n) + ia) } == va, "C02: contents of the reallocated older block were not preserved");
+        }
+        // the returned block is written by its owner: the newer block must not see it
+        if ln.size() > 0 && w1.holds(addr(n)) {
+            unsafe { w1.write(addr(n), !vb) };
+            check!(unsafe { w1.read(addr(b) + ib) } == vb, "C18/C01: writing to the returned block changed the live newer block");
+        }
+    }
+}
+
+fn raise_then_older_op<const UP: bool>() {
+    set_budget(1);
+    let Ok(bump) = Bump::<VA, S<1, UP>>::try_new() else { return };
+    let mut bump = core::mem::ManuallyDrop::new(bump);
+    set_budget(0);
+    let w1 = Win::of(bump.stats().current_chunk().unwrap());
+    let la = any_layout(4, 3);
+    let lb = any_layout(3, 0);
+    kani::assume(la.size() > 0 && lb.size() > 0);
+    let Ok(a) = bump.allocate(la) else { return };
+    let a = a.cast::<u8>();
+    let Ok(b) = bump.allocate(lb) else { return };
+    let b = b.cast::<u8>();
+    let (va, vb, ia, ib): (u8, u8, usize, usize) = (kani::any(), kani::any(), kani::any(), kani::any());
+    kani::assume(ia < la.size() && ib < lb.size());
+    unsafe {
+        w1.write(addr(a) + ia, va);
+        w1.write(addr(b) + ib, vb);
+    }
+    kani::cover!(if UP { addr(a) + la.size() == addr(b) } else { addr(b) + lb.size() == addr(a) }, "the two blocks are packed back to back");
+    kani::cover!(if UP { (addr(a) + la.size()) % 8 != 0 && (addr(b) + lb.size() + 7) / 8 == (addr(a) + la.size() + 7) / 8 } else { false }, "[up] the newer block lies inside the older block's padding to the raised alignment");
+    let region: bool = kani::any();
+    if region {
+        bump.aligned::<8, _>(|s| {
+            check!(pos(s) % 8 == 0, "C18: position not a multiple of N at entry of aligned::<N>");
+            older_op::<_, UP>(&*s, w1, a, la, ia, va, b, lb, ib, vb);
+            check!(pos(s) % 8 == 0, "C18: position not a multiple of N after an operation inside aligned::<N>");
+        });
+    } else {
+        let b8: &mut Bump<VA, S<8, UP>> = bump.borrow_mut_with_settings();
+        check!(addr(b8.stats().current_chunk().unwrap().bump_position()) % 8 == 0, "C18: position not aligned after borrow_mut_with_settings");
+        older_op::<_, UP>(&*b8, w1, a, la, ia, va, b, lb, ib, vb);
+        check!(addr(b8.stats().current_chunk().unwrap().bump_position()) % 8 == 0, "C18: position not aligned after an operation with the raised alignment");
+    }
+    kani::cover!(true, "END: harness ran to completion");
+}
+
+#[kani::proof]
+#[kani::unwind(6)]
+#[kani::stub(std::alloc::handle_alloc_error, crate::stubs::hae_stub)]
+fn raise_then_older_op_up() {
+    raise_then_older_op::<true>();
+}
+
+#[kani::proof]
+#[kani::unwind(6)]
+#[kani::stub(std::alloc::handle_alloc_error, crate::stubs::hae_stub)]
+fn raise_then_older_op_down() {
+    raise_then_older_op::<false>();
+}
